@@ -137,6 +137,11 @@ def apply_helpers(rng: random.Random, spec: dict, p: float, wrap_p: float) -> No
             continue
         if k in VIA and not node.get('id') and not node.get('meas') and not node.get('cons') and not node.get('nocons') \
                 and not node.get('pair') and rng.random() < p:
+            if k == 'rep' and node['body']['k'] == 'rep' and node['count'] not in ('1', '2', '3'):
+                # `rep.with_repetition(c)` may fold the counts into ONE node that carries the inner constraints; with c <= 0
+                # the explicit nesting does not visit the inner repetition at all while the folded node is visited (and
+                # validates) -- both are right for their tree, so only positive literal counts are folded here
+                continue
             node['via'] = rng.choice(VIA[k])
 
 
